@@ -227,6 +227,11 @@ func noise(r *sx.Rng, out *[]revent, heavy bool) {
 func runCase(seed uint64, idx int) (string, map[string]interface{}, string, bool) {
 	r := sx.Fork(seed, uint64(idx))
 	nops := 1 + r.Intn(7)
+	// long runs of NoWait setters on one client: the pending list grows well beyond anything a short history reaches
+	long := r.Chance(1, 14)
+	if long {
+		nops = 35 + r.Intn(60)
+	}
 	var ops []opT
 	var script []revent
 	var faults []int
@@ -265,6 +270,9 @@ func runCase(seed uint64, idx int) (string, map[string]interface{}, string, bool
 	for i := 0; i < nops; i++ {
 		c := r.Intn(100)
 		fault := 0
+		if long && !r.Chance(1, 12) {
+			c = 60 // a setter
+		}
 		if r.Chance(1, 25) {
 			fault = sx.Pick(r, []int{1, 90, 105})
 		}
@@ -282,6 +290,9 @@ func runCase(seed uint64, idx int) (string, map[string]interface{}, string, bool
 			o = opT{kind: "deleterules"}
 		case c < 80:
 			o = opT{kind: "set", setter: sx.Pick(r, setters), v: sx.Pick(r, vals), wait: r.Chance(1, 2)}
+			if long {
+				o.wait = r.Chance(1, 20)
+			}
 		case c < 90:
 			o = opT{kind: "waitacks"}
 		case c < 96:
